@@ -1820,7 +1820,7 @@ pub fn property() -> Property {
     let mut prop = Property {
         id: "C05",
         level: "exploration",
-        rule: "generated: (entry point, text) for 14 entry points (GRLParser::parse_rules/parse_rule/parse_with_modules, QueryParser::parse, ExpressionParser::parse, GRLQueryParser::parse/parse_queries, parse_aggregate_query, DisjunctionParser::parse, NestedQueryParser::parse, parse_stream_pattern/parse_stream_join_pattern/parse_window_spec, expression::evaluate_expression over a fixed 6-field store); text is valid UTF-8 of at most 4096 bytes from three random families (raw bytes lossily decoded; token soup of the language's keywords/operators/delimiters plus multi-byte tokens, bare or in the slots of a valid skeleton; valid seeds mutated 1-4 times by truncation at a byte, insertion/replacement of a multi-byte character, deletion of a delimiter/slice/bracket group, duplication, splice, token insertion, long runs, extreme numbers) and two enumerated ones (edits: every seed x every single truncation / character deletion / extreme number / dropped bracket group / multi-byte insertion or replacement; deep: unit^n for 31 units and n = 1,2,4,...,4096 (quick: up to 512) plus balanced nesting up to 32, bare and in every slot of a valid skeleton). Texts whose matched bracket nesting exceeds 32 are discarded. Oracle: the call returns (Ok or Err) on a thread with an 8 MiB stack: a panic fails with the panic location as signature, a stack overflow or abort (seen as the death of a child process for deep cases of 1000 bytes or more, of the worker otherwise) and a run longer than the watchdog fail. Non-trivial: the text passes the first syntactic gate of its parser, judged on the text alone (rule/query keyword followed by a brace pair; a first token the recursive descent consumes; ` WHERE ` / parenthesised ` OR ` present; leading identifier / `over`; at least one arithmetic operator) and the call returned; distinct by (entry point, text). Part `chains` (exhaustive): every unit of 2 (thorough: 3) tokens over a 9-14 token alphabet per language (operands, infix and prefix operators, brackets, keywords), repeated 3,6,...,64 times, bare / followed by an operand / inside the first skeleton slot, on every entry point of that language; every length is one judged call; after the first call slower than 100 ms the longer ones run in a child process (hang@<target> names the text). Part modgraph (exhaustive): for parse_with_modules, module import GRAPHS of every shape in {chain, ladder of diamonds (2 / 3 back), two-column diamond stack, complete DAG, fan-in, fan-out} x 2..64 levels (as fit into 4 KiB) x {no tail, closing back edge, self import, rule in the last module} x three import spellings; above 12 levels in a child process with a 3 GiB address-space cap, where an allocation-failure abort is reported as alloc-failure@parse_with_modules (a 4 KiB text that needs more than 3 GiB does not return a value or an error either).",
+        rule: "generated: (entry point, text) for 14 entry points (GRLParser::parse_rules/parse_rule/parse_with_modules, QueryParser::parse, ExpressionParser::parse, GRLQueryParser::parse/parse_queries, parse_aggregate_query, DisjunctionParser::parse, NestedQueryParser::parse, parse_stream_pattern/parse_stream_join_pattern/parse_window_spec, expression::evaluate_expression over a fixed 6-field store); text is valid UTF-8 of at most 4096 bytes from three random families (raw bytes lossily decoded; token soup of the language's keywords/operators/delimiters plus multi-byte tokens, bare or in the slots of a valid skeleton; valid seeds mutated 1-4 times by truncation at a byte, insertion/replacement of a multi-byte character, deletion of a delimiter/slice/bracket group, duplication, splice, token insertion, long runs, extreme numbers) and two enumerated ones (edits: every seed x every single truncation / character deletion / extreme number / dropped bracket group / multi-byte insertion or replacement; deep: unit^n for 31 units and n = 1,2,4,...,4096 (quick: up to 512) plus balanced nesting up to 32, bare and in every slot of a valid skeleton). Texts whose matched bracket nesting exceeds 32 are discarded. Oracle: the call returns (Ok or Err) on a thread with an 8 MiB stack: a panic fails with the panic location as signature, a stack overflow or abort (seen as the death of a child process for deep cases of 1000 bytes or more, of the worker otherwise) and a run longer than the watchdog fail. Non-trivial: the text passes the first syntactic gate of its parser, judged on the text alone (rule/query keyword followed by a brace pair; a first token the recursive descent consumes; ` WHERE ` / parenthesised ` OR ` present; leading identifier / `over`; at least one arithmetic operator) and the call returned; distinct by (entry point, text). Part `chains` (exhaustive): every unit of 2 (thorough: 3) tokens over a 9-14 token alphabet per language (operands, infix and prefix operators, brackets, keywords), repeated 3,6,...,64 times, bare / followed by an operand / inside the first skeleton slot, on every entry point of that language; every length is one judged call; after the first call slower than 100 ms the longer ones run in a child process (hang@<target> names the text). Part modgraph (exhaustive): for parse_with_modules, module import GRAPHS of every shape in {chain, ladder of diamonds (2 / 3 back), two-column diamond stack, complete DAG, fan-in, fan-out} x 2..64 levels (as fit into 4 KiB) x {no tail, closing back edge, self import, rule in the last module} x three import spellings; above 12 levels in a child process with a 3 GiB address-space cap, where an allocation-failure abort is reported as alloc-failure@parse_with_modules (a 4 KiB text that needs more than 3 GiB does not return a value or an error either). Part wide-edits: a valid seed whose double-quoted names / strings are replaced (3 in 4) by runs of 1..150 characters of mixed UTF-8 width (incl. characters whose lower-case form is longer or shorter), then one of: no edit, truncation at a byte, deletion of a character, deletion of a structural character, an extreme number, a dropped bracket group.",
         assumptions: vec![
             "stack size: every call runs on a thread created with an explicit 8 MiB stack, the default main-thread stack on Linux; frame sizes are those of the harness build (engine at opt-level 2, no ASan) - the unbounded recursions C05-F8/F9 overflow 8 MiB only when the engine is built at opt-level 0 (`cargo build --bin rre-check --config 'profile.dev.package.rust-rule-engine.opt-level=0'`) or under ASan (fuzz crate)".into(),
             "termination is judged by the 120 s watchdog (VERIF_WATCHDOG_S) per input: by the monitor for in-process cases, and 2 s earlier by this module for deep cases run in a child process (so that its timeout, which carries a signature, wins the race against the monitor)".into(),
